@@ -266,6 +266,12 @@ class QG:
                 chain.append(".on_conflict(%r).do_update(%r, %s)" % (cols[0], r.choice(cols), self.value(g)))
             elif x < 0.55:
                 chain.append(".on_conflict(%s.%s).do_update(%r)" % (tv, cols[0], r.choice(cols)))
+            elif x < 0.8:
+                # partial-index arbiter predicate and / or DO UPDATE … WHERE, each with data values of its own
+                pred = ".where(%s.%s %s %s)" % (tv, r.choice(cols), r.choice(gen.CMP), self.value(g)) if r.random() < 0.75 else ""
+                upd = ".do_update(%r, %s)" % (r.choice(cols), self.value(g))
+                post = ".where(%s.%s %s %s)" % (tv, r.choice(cols), r.choice(gen.CMP), self.value(g)) if r.random() < 0.5 else ""
+                chain.append(".on_conflict(%r)%s%s%s" % (cols[0], pred, upd if r.random() < 0.8 else ".do_nothing()" if not post else upd, post))
             if r.random() < 0.3:
                 chain.append(".returning(%s)" % r.choice(["'*'", repr(cols[0]), "%s.%s" % (tv, cols[0])]))
         v = self.var("q")
